@@ -415,6 +415,23 @@ struct V : RecursiveASTVisitor<V> {
     o["lambda"] = R->isLambda();
     o["aggregate"] = R->isAggregate();
     o["polymorphic"] = R->isPolymorphic();
+    o["trivially_copyable"] = R->isTriviallyCopyable();
+    o["trivial_dtor"] = R->hasTrivialDestructor();
+    if (auto *TS = dyn_cast<ClassTemplateSpecializationDecl>(R)) {
+      // traits of the type template arguments (element types of the containers: decided by clang, also for std types)
+      json::Array ta;
+      for (auto &A : TS->getTemplateArgs().asArray()) {
+        if (A.getKind() != TemplateArgument::Type) continue;
+        QualType T = A.getAsType();
+        json::Object to;
+        to["type"] = Em.ctstr(T);
+        to["trivially_copyable"] = T.isTriviallyCopyableType(C);
+        to["trivial_dtor"] = !T.isDestructedType();
+        to["is_class"] = T->isRecordType();
+        ta.push_back(std::move(to));
+      }
+      o["targ_traits"] = std::move(ta);
+    }
     json::Array fs;
     for (auto *F : R->fields()) {
       json::Object fo;
